@@ -28,6 +28,7 @@ type verifPqRow struct {
 	Time  int64  `json:"time"`  // microseconds
 	ETime int64  `json:"etime"` // event_time
 	STime int64  `json:"stime"` // sample_timestamp
+	TS    int64  `json:"ts"`    // a column named timestamp
 	F     []bool `json:"f"`     // f0..f3
 }
 
@@ -106,10 +107,10 @@ func TestVerifPruningQuery(t *testing.T) {
 						fl[k] = "true"
 					}
 				}
-				vals = append(vals, fmt.Sprintf("(%d, make_timestamp(%d)::TIMESTAMPTZ, make_timestamp(%d)::TIMESTAMPTZ, make_timestamp(%d)::TIMESTAMPTZ, %s)",
-					r.ID, r.Time, r.ETime, r.STime, strings.Join(fl, ", ")))
+				vals = append(vals, fmt.Sprintf("(%d, make_timestamp(%d)::TIMESTAMPTZ, make_timestamp(%d)::TIMESTAMPTZ, make_timestamp(%d)::TIMESTAMPTZ, make_timestamp(%d)::TIMESTAMPTZ, %s)",
+					r.ID, r.Time, r.ETime, r.STime, r.TS, strings.Join(fl, ", ")))
 			}
-			q := fmt.Sprintf("COPY (SELECT * FROM (VALUES %s) v(id, \"time\", event_time, sample_timestamp, f0, f1, f2, f3)) TO '%s' (FORMAT PARQUET)",
+			q := fmt.Sprintf("COPY (SELECT * FROM (VALUES %s) v(id, \"time\", event_time, sample_timestamp, \"timestamp\", f0, f1, f2, f3)) TO '%s' (FORMAT PARQUET)",
 				strings.Join(vals, ", "), filepath.Join(d, fmt.Sprintf("vm_%04d.parquet", i)))
 			if _, err := db.Exec(q); err != nil {
 				t.Fatalf("writing %s: %v", f.Dir, err)
